@@ -953,6 +953,14 @@ class MapOverlapOp:
         return da.map_overlap(f, x, depth=a["depth"], boundary=a["boundary"], **kw)
 
 
+def make_scaler(k):
+    """A closure factory: every call returns a NEW function object over the same code object; what it
+    computes is in the closure cell (the kind of user function tokenized by value, not by import path)."""
+    def scale_by(x):
+        return x * k
+    return scale_by
+
+
 @op("map_blocks", weight=1.0)
 class MapBlocksOp:
     @staticmethod
@@ -960,12 +968,22 @@ class MapBlocksOp:
         x = ins[0]
         if x.dtype.kind == "b":
             return None
+        prev = [s_ for s_ in ctx.recipe["steps"] if s_["op"] == "map_blocks" and s_["args"].get("fn") == "closure"
+                and ctx.env.vars.get(s_["in"][0]) is x]
+        if prev and rng.random() < 0.6:
+            # a sibling closure from the same factory with another captured value, over the SAME input
+            k0 = prev[-1]["args"]["k"]
+            return {"fn": "closure", "k": rng.choice([k for k in (2, 3, 5, 10) if k != k0])}
+        if rng.random() < ctx.p_closure_fn:
+            return {"fn": "closure", "k": rng.choice([2, 3, 5, 10])}
         return {"fn": rng.choice(["mb_scale", "mb_blockid", "mb_blockinfo", "mb_inplace"]), "rec": ctx.rec_fns}
 
     @staticmethod
     def apply(env, ins, a):
         da = _da()
         x = ins[0]
+        if a["fn"] == "closure":
+            return da.map_blocks(make_scaler(a["k"]), x, dtype=x.dtype)
         f = get_fn(env, a["fn"], a.get("rec"))
         return da.map_blocks(f, x, dtype=x.dtype)
 
@@ -1376,6 +1394,7 @@ class Ctx:
         self.p_reduction_twin = 0.15
         self.p_fine_chunks = 0.0
         self.p_arg_reduction = 0.0
+        self.p_closure_fn = 0.25
         self.p_simlock = 0.0
         self.p_lazy_source = 0.0
         self.p_asarray_false = 0.0
